@@ -106,10 +106,12 @@ def gen_domain(rng):
     names = rng.sample(BASE_NAMES, 4)
     if rng.random() < 0.4:
         names.append(rng.choice(ODD_NAMES))
-    if rng.random() < 0.3:
+    if rng.random() < 0.15:
         names.append(rng.choice(SHADOW_NAMES))
     nums = [rng.choice(sp) for sp in rng.sample(NUM_SPELLINGS, rng.randint(4, 7))]
-    strs = rng.sample(STRS, rng.randint(3, 5))
+    strs = rng.sample(STRS[:-1], rng.randint(3, 5))
+    if rng.random() < 0.2:
+        strs.append(STRS[-1])          # a string with a single quote
     return {"names": names, "nums": nums, "strs": strs}
 
 
@@ -416,7 +418,7 @@ def gen_ops(rng, db, pred, make_pred):
 def gen_cases(ctx):
     rng = ctx.rng
     thorough = ctx.tier == "thorough"
-    n_db = 330 if thorough else 110
+    n_db = 300 if thorough else 80
     per_db = 16 if thorough else 12
     cases = []
     for d in range(n_db):
@@ -871,25 +873,27 @@ def regenerate(repo=None):
 
 
 def run(ctx):
-    ctx.rule = ("a case is (database of 1-12 fits with nested instances, predicate tree over path comparisons / type tests / "
-                "fit attributes / info with and, or, not, [ordering keys, slices]); it is non-trivial when the predicate has at "
-                "least one junction or negation and, evaluated directly on the stored objects, selects some but not all fits; "
-                "distinct = distinct abstract input")
+    import time
+    ctx.rule = ("a case is (database of 1-12 fits with nested instances, then either one predicate tree over path comparisons / "
+                "type tests / fit attributes / info with and, or, not [+ ordering keys and [a:b] slices], or an arbitrary sequence "
+                "of query / order_by / slice-with-step operations); a query / order case is non-trivial when the predicate has a "
+                "junction or negation and, evaluated directly on the stored objects, selects some but not all fits; an operation "
+                "sequence when it has >= 3 operations and a non-empty result; distinct = distinct abstract input")
     ctx.trusted = [
         "Coq 8.16.1 kernel incl. vm_compute",
         "SQLite's evaluation of the emitted SQL and SQLAlchemy's persistence of Fit/Object rows: covered by correspondence only",
         "the model reads the emitted SQL on the instance tree (object row = tree node, parent_id = tree edge, JOIN = kind of the "
         "node); the flattening Object.from_object is compared row-by-row with the generated tree on every database",
+        "numbers enter the model as their rank among the distinct numbers of the case (order-isomorphic; computed exactly with "
+        "fractions.Fraction), so only =, <, <= of binary64 / int / bool values are modelled, not their SQL spelling",
         "harness c10.py / impl/c10_impl.py (abstract case -> real API calls; direct evaluation on fit.instance / fit.info / columns)",
     ]
     ctx.assumptions = [
         "child names are unique below every stored object (attributes, list indices, string dict keys); info keys unique per fit",
-        "numbers are multiples of 1/8 (binary64 equality and order = integer equality and order); strings are lower-case ASCII "
-        "without quotes, % or _ (LIKE is case-insensitive and constants are interpolated unescaped: outside the claim)",
+        "within one database every numeric value has one Python spelling (1 / 1.0 / True are not mixed as constants)",
         "type tests mean class_path equality (a subclass instance does not satisfy a test for its base class)",
-        "ordering is compared only when the requested keys make the order total; NULL order keys are not generated",
+        "list positions are compared only when the requested keys make the order total; NULL order keys are not generated",
     ]
-    import time
     t0 = time.time()
     timing = ctx.notes.setdefault('timing_s', {})
     built = ctx.build()
@@ -909,7 +913,7 @@ def run(ctx):
     # implementation, in parallel chunks (cases of one database stay together)
     chunks, cur = [], []
     for c in cases:
-        if cur and (len(cur) >= 24 and c["db"] is not cur[-1]["db"]):
+        if cur and (len(cur) >= 36 and c["db"] is not cur[-1]["db"]):
             chunks.append(cur)
             cur = []
         cur.append(c)
@@ -928,91 +932,103 @@ def run(ctx):
     terms, idx = [], []
     for i, (c, r) in enumerate(zip(cases, results)):
         if "driver_exc" in r:
-            ctx.failure("oracle", "driver failed: %s %s" % (r["driver_exc"], r.get("msg")), c, impl=r)
+            ctx.oracle["failures"] += 1
+            ctx.failure("oracle", "the database could not be built / driven: %s %s" % (r["driver_exc"], r.get("msg")), c, impl=r)
             continue
         terms.append(coq_case(c, r))
         idx.append(i)
-    labels = {}
+    labels = None
     have_model = os.path.exists(os.path.join(common.COQ, "C10", "Model.vo"))
+    variant = os.environ.get("VERIF_C10_VARIANT", DEFAULT_VARIANT)
+    ctx.notes["model_variant"] = variant
     if have_model:
         hdr = ctx.header(["Model"])
         t2 = time.time()
         # one vm_compute pass: bit 1 of case_labels is check_case (model = implementation), the other
         # bits are the defect classes of the abstract case
         shard = 40
-        variant = os.environ.get("VERIF_C10_VARIANT", DEFAULT_VARIANT)
-        ctx.notes["model_variant"] = variant
         lab, log2 = coq_map_cases("C10", hdr, LABEL_FN[variant], terms, ctx.rundir, shard=shard)
         timing['coq'] = round(time.time() - t2, 1)
         ctx.corr["cases"] += len(terms)
         ctx.corr["shards"] += (len(terms) + shard - 1) // shard
         if lab is None:
-            ctx.obligation("correspondence:cases", "correspondence", False, log2[-900:])
-            bad = None
-            lab = [1] * len(terms)
+            ctx.obligation("correspondence:cases", "correspondence", False, "the model could not be evaluated: " + log2[-700:])
         else:
             bad = [j for j, v in enumerate(lab) if not v & 1]
             ctx.corr["disagreements"] += len(bad)
             ctx.obligation("correspondence:cases", "correspondence", not bad,
                            "%d/%d cases disagree" % (len(bad), len(terms)) if bad else "%d cases agree" % len(terms))
-        for j, i in enumerate(idx):
-            labels[i] = lab[j]
+            labels = {i: lab[j] for j, i in enumerate(idx)}
     else:
         ctx.obligation("correspondence:cases", "correspondence", False, "Model.vo not built")
-        bad = None
-    bad_set = set(idx[b] for b in (bad or []))
     n_guarded = 0
     for i, (c, r) in enumerate(zip(cases, results)):
         if "driver_exc" in r:
             continue
-        key = {k: v for k, v in c.items() if k != "want_dump"}
-        ctx.count_case(key, nontrivial(c, r), c["kind"])
-        ctx.hist("pred_size", min(pred_size(c["pred"]), 12))
+        preds = case_preds(c)
+        ctx.count_case(c, nontrivial(c, r), c["kind"])
+        ctx.hist("pred_size", min(sum(pred_size(p) for p in preds), 12))
         ctx.hist("fits", len(c["db"]))
         ctx.hist("outcome", r.get("exc", "ok"))
-        ctx.hist("selected", "none" if not r["direct"] else "all" if len(r["direct"]) == len(c["db"]) else "some")
-        lb = labels.get(i, 0)
-        classes = [name for bitv, name in KNOWN_CLASSES.items() if lb & bitv and not (bitv == 32 and ill_formed(c["pred"]))]
-        ctx.hist("classes", ",".join(classes) or "-")
-        if not classes:
-            n_guarded += 1
-        if c["kind"] == "order":
-            ctx.hist("slices", len(c["slices"]))
+        if c["kind"] == "ops":
+            ctx.hist("ops", " ".join(o[0][0] for o in c["ops"]))
+        else:
+            ctx.hist("selected", "none" if not r["direct"] else "all" if len(r["direct"]) == len(c["db"]) else "some")
         ctx.oracle["cases"] += 1
         if "dump" in r:
             msg = check_dump(c, r["dump"])
             if msg:
                 ctx.oracle["failures"] += 1
                 ctx.failure("oracle", msg, c, classes=[], impl=r)
-        res = oracle(c, r)
+        res = ops_oracle(c, r) if c["kind"] == "ops" else oracle(c, r)
+        small = {k: v for k, v in r.items() if k != "dump"}
+        if labels is None:
+            # no labels, no classification: the single failed obligation above is the report
+            if res:
+                ctx.oracle["failures"] += 1
+                ctx.hist("unclassified_oracle_failures", 1)
+            continue
+        lb = labels[i]
+        agree = bool(lb & 1)
+        ill = any(ill_formed(p) for p in preds)
+        classes = [name for bitv, name in KNOWN_CLASSES.items() if lb & bitv and not (bitv == 32 and ill)]
+        ctx.hist("classes", ",".join(classes) or "-")
+        if not classes:
+            n_guarded += 1
         if res:
             msg, slice_related = res
             ctx.oracle["failures"] += 1
-            cl = slice_classes(c) if slice_related else classes
-            ctx.failure("oracle", msg, c, classes=cl, impl={k: v for k, v in r.items() if k != "dump"})
-        if i in bad_set:
+            if c["kind"] == "ops":
+                cl = classes + slice_classes(c)
+            else:
+                cl = slice_classes(c) if slice_related else classes
+            # a known class excuses a deviation only when the faithful model reproduces exactly this outcome
+            ctx.failure("oracle", msg, c, classes=cl if agree else [], impl=small)
+        if not agree:
+            known = res is not None and False
             ctx.failure("correspondence", "model and implementation disagree on a %s case" % c["kind"], c,
-                        impl={k: v for k, v in r.items() if k != "dump"},
-                        broken={"kind": "correspondence", "name": "C10.check_case"},
-                        classes=[], found_input=res is not None and not ctx.match_known(slice_classes(c) if res[1] else classes))
+                        impl=small, broken={"kind": "correspondence", "name": "C10.check_case"},
+                        classes=[], found_input=res is not None)
         if i % 41 == 0:
-            ctx.sample({"pred": c["pred"], "fits": len(c["db"]), "kind": c["kind"], "selected": r["direct"],
-                        "returned": r.get("ids", r.get("exc"))}, limit=8)
+            ctx.sample({"case": {k: v for k, v in c.items() if k != "db"}, "fits": len(c["db"]),
+                        "selected_directly": r.get("direct", r.get("direct_ops")), "returned": r.get("ids", r.get("exc"))}, limit=8)
     ctx.notes["cases_outside_every_known_class"] = n_guarded
-    ctx.notes["model"] = ("qobj/compile/mk_junction/holds in coq/C10/Model.v; `current` variant = code as it is; theorems for the "
-                          "`repaired` variant describe the code after proposed_fixes/C10-*.diff")
+    ctx.notes["model"] = ("qobj/compile/mk_junction/holds/run_ops in coq/C10/Model.v; variant `current` = the code as it is "
+                          "(f11f464, 127fbf4 applied), `repaired` = with proposed_fixes/C10-escape-string-constants.diff, "
+                          "`legacy` = before the applied repairs")
 
 
 MANIFEST = {
     "text": "Coq 8.16 model of the aggregator query objects (NamedQuery nesting, junction flattening / de-duplication / merge by name, "
-            "negation, JOIN semantics of the emitted SQL on the flattened instance tree, ordering, offset/limit slicing) with theorems "
-            "for all predicate trees and all databases with unique child names: the compiled query selects exactly the fits on which the "
-            "predicate is true, under an explicit guard that excludes the defect classes of the current code (each refuted by a "
-            "vm_compute witness and replayed on the real code); slicing proved exact for the repaired arithmetic and refuted for the "
-            "current one; vm_compute correspondence with the running code on generated (database, predicate, order, slice) cases and a "
-            "direct oracle evaluating the predicate on the objects read back from SQLite",
+            "negation, JOIN and NULL semantics of the emitted SQL on the flattened instance tree, LIKE, ordering, offset/limit slicing, "
+            "the Aggregator state machine over query / order_by / slice) with theorems for all predicate trees and all databases with "
+            "unique child names: the compiled query selects exactly the fits on which the predicate is true, and query+order+slices "
+            "return the Python slices of the sorted selection, under an explicit guard that excludes the defect classes of the code "
+            "(each refuted by a vm_compute witness and replayed on the real code); vm_compute correspondence with the running code on "
+            "generated (database, predicate / operation sequence) cases and a direct oracle evaluating the predicates on the objects "
+            "read back from SQLite and folding the operations over a Python list",
     "note": "Trusted: Coq kernel + vm_compute, SQLite/SQLAlchemy (correspondence only), the reading of SQL as tree semantics, the "
-            "harness. Outside the claim: string constants with quotes/LIKE wildcards/upper case, NULL order keys, BestFitQuery/ChildQuery, "
-            "grid-search aggregators.",
+            "rank abstraction of numbers, the harness. Outside the claim: NULL order keys, BestFitQuery/ChildQuery, grid-search "
+            "aggregators, objects other than plain instances / lists / tuples / dicts / numbers / strings / None.",
     "technique": "machine-checked proof in Coq (hand-written model) + vm_compute correspondence + direct property oracle",
 }
